@@ -401,9 +401,14 @@ V_HARNESS(h_bytewise_equiv)
 }
 
 /* 2c. coroutine interface (callback NULL) delivers what the callback interface delivers */
+/* COR_MAX: size of the CALLER's array handed to vbi_dvb_demux_cor (an exact-size object: a copy of more than max_lines records is a bounds
+   failure).  Default: as big as the frame array.  Smaller than the frame: the documented result is the first COR_MAX lines of the frame. */
+#ifndef COR_MAX
+#define COR_MAX OUTN
+#endif
 V_HARNESS(h_cor_equiv)
 {
-  static vbi_sliced got[OUTN]; const uint8_t *bp; unsigned left, n, i, calls = 0, it; int64_t pts = 0;
+  static vbi_sliced got[COR_MAX]; const uint8_t *bp; unsigned left, n, i, calls = 0, it; int64_t pts = 0;
   V_INIT();
   cb_max = NPK;
   build_stream(); CANARY = in_u16();
@@ -412,12 +417,14 @@ V_HARNESS(h_cor_equiv)
   V_ASSERT(vbi_dvb_demux_feed(&DXA, STREAM, SLEN), "whole_feed_ok");
   bp = STREAM; left = SLEN;
   for (it = 0; it < 3 && left > 0; it++) {
-    n = vbi_dvb_demux_cor(&DXB, got, OUTN, &pts, &bp, &left);
+    n = vbi_dvb_demux_cor(&DXB, got, COR_MAX, &pts, &bp, &left);
     if (n > 0) {
       V_ASSERT(calls < LOGA.calls, "cor_no_extra_frame");
+      V_ASSERT(n <= COR_MAX, "cor_at_most_max_lines");
       if (calls < LOGA.calls && calls < LOGN) {
-        V_ASSERT(n == LOGA.n[calls] && pts == LOGA.pts[calls], "cor_same_frame_header");
-        for (i = 0; i < OUTN; i++) if (i < n) V_ASSERT(same_line(&got[i], &LOGA.lines[calls][i]), "cor_same_lines");
+        V_ASSERT(n == (LOGA.n[calls] < COR_MAX ? LOGA.n[calls] : COR_MAX) && pts == LOGA.pts[calls], "cor_same_frame_header");
+        for (i = 0; i < COR_MAX; i++) if (i < n) V_ASSERT(same_line(&got[i], &LOGA.lines[calls][i]), "cor_same_lines");
+        if (LOGA.n[calls] > COR_MAX) V_REACH("truncated");
       }
       calls++;
     }
